@@ -75,4 +75,14 @@ CLAIMED = {
   "note": "One recorded known finding (no-namespace element name under a default namespace has no correct spelling in the name API) is excluded by construction and counted; is_prefix_defined for unbound prefixes and Err results are not asserted.",
   "technique": "property-based testing against an independent scope model",
  },
+ "C10": {
+  "text": "(a) any generated tree with a free declaration layout: to_string must fail or yield text that an INDEPENDENT tokenizer + Namespaces resolver reads back with exactly the tree's expanded names; (b) generated repair histories (move/clone away from declarations, remove declarations, add names in fresh namespaces, create_missing_prefixes on document / fragment / element, <= 6 rounds): serialisation must then succeed, reparse deep_equal, keep content and all earlier declarations, and pass (a).",
+  "note": "Trusted: xmltok + scope model as the independent reader. A no-namespace element that declares a default namespace on itself is outside what prefixes can repair and is not generated in (b).",
+  "technique": "property-based testing with an independent reader as oracle + stateful repair histories",
+ },
+ "C15": {
+  "text": "Generated well-scoped trees seeded with redundant / aliased / shadowed declarations: after deduplicate_namespaces every element's declaration map is a sub-map of the old one, content is unchanged, serialisation still succeeds and reparses to the same content, and a second call is a no-op.",
+  "note": "Precondition (serialises before) is checked and counted, not assumed.",
+  "technique": "property-based testing with before/after metamorphic oracle and idempotence law",
+ },
 }
